@@ -629,6 +629,12 @@ class TransferManager(BaseManager):
             if user.status == UserStatus.OFFLINE:
                 continue
 
+            # A state transition is in progress (eg.: the transfer is being
+            # aborted or paused and is waiting for its tasks to be cancelled).
+            # A new management cycle is requested when the transition completes
+            if transfer._state_lock.locked():
+                continue
+
             if transfer.direction == TransferDirection.UPLOAD:
                 # Do not add the user if the user is already uploading or a
                 # transfer was already added to the queud upload list (only
